@@ -384,6 +384,21 @@ def run(rep, tier, seed):
         if m:
             fails.append({'kind': 'lineage', 'rows': rows, 'agent': list(agent), 'message': m, 's': (rows,) + tuple(agent) + (NONE,),
                           'sig': {'fn': 'move_obstacles', 'part': 'lineage'}})
+    # telepods of a user-defined subclass are telepods: partners are the OTHER telepods of the same colour, whatever their class
+    from .. import reps as _reps  # noqa: F401 -- registers VerifSubTelepod
+    T1, T2, S1, S2, F_ = U.telepod(U.C1), U.telepod(U.C2), ('VerifSubTelepod', 0, U.C1, None), ('VerifSubTelepod', 0, U.C2, None), FLOOR
+    sub_n = 0
+    for rows in (((T1, S1),), ((S1, T1, F_),), ((T1, T1, S1),), ((S1, S1),), ((S1, T2, T1),), ((S1, S2), (T2, T1)), ((F_, S1), (T1, S1)),
+                 ((S1, F_, S2), (T2, S2, T1))):
+        for y in range(len(rows)):
+            for x in range(len(rows[0])):
+                s = (rows, y, x, 'F', NONE)
+                k, _, m = judge_teleport(s, 'TURN_LEFT')
+                sub_n += 1
+                if m:
+                    fails.append({'kind': 'tele', 's': s, 'a': 'TURN_LEFT', 'message': 'with telepods of a user-defined subclass: ' + m,
+                                  'sig': {'fn': 'teleport', 'part': 'subclass'}})
+    rep.part('telepod_subclass', cases=sub_n)
     import itertools as _it
     for rows, agent in teleport_lineage_cases():
         for seq in _it.product(('MOVE_FORWARD', 'TURN_LEFT', 'MOVE_BACKWARD', 'MOVE_RIGHT'), repeat=3):
